@@ -415,7 +415,7 @@ def _sortkey(c: dict):
     return (c['leaves'], c['kind'], c['a'], c['b'])
 
 
-QUOTA = {'legal': 470, 'pair': 90, 'leaky': 70, 'err': 170}
+QUOTA = {'legal': 470, 'pair': 90, 'leaky': 70, 'err': 3000}     # refusals at construction cost milliseconds
 
 
 def _group(c: dict) -> str:
@@ -433,9 +433,13 @@ def quick_sample(cases: list[dict], seed: int) -> tuple[list[dict], dict]:
     for g in sorted(QUOTA):
         group = [c for c in cases if _group(c) == g]
         coarse, s1 = fx.stratified_sample(group, lambda c: f"{c['kind']}|{_ranks(c)}|{_outcome(c)}", 2, seed)
-        fine, s2 = fx.stratified_sample(group, _stratum, 1, seed + 1)
+        fine, s2 = fx.stratified_sample(group, _stratum, 3 if g == 'err' else 1, seed + 1)
         nstrata[g] = {'configurations': len(group), 'coarse_strata': len(s1), 'fine_strata': len(s2)}
         chosen = {c['id']: c for c in coarse}
+        if g == 'err':
+            # every refused ravel over two leaves of different shapes (which leaf offends decides which check must fire)
+            chosen.update({c['id']: c for c in group if c['kind'] == 'ravel' and len(c['leaves']) == 2
+                           and c['leaves'][0] != c['leaves'][1]})
         rng.shuffle(fine)
         for c in fine:
             if len(chosen) >= QUOTA[g]:
